@@ -1239,7 +1239,9 @@ class CryptContext:
         # convert numbers to strings
         elif isinstance(value, numeric_types):
             if isinstance(value, float) and key[2] == "vary_rounds":
-                value = (f"{value:.2f}").rstrip("0") if value else "0"
+                text = (f"{value:.2f}").rstrip("0") if value else "0"
+                # the two-decimal form is only a prettier spelling when it loses nothing
+                value = text if float(text) == value else repr(value)
             else:
                 value = str(value)
 
